@@ -122,6 +122,8 @@ def make_case(seed, k, variant=None):
         opt, cfg = variant[0], dict(variant[1], max_cycles=rng.choice([2, 3, 5]), fitness_error=None)
         klass = "optional-variant"
     kind = rng.choice(["continuous", "continuous", "multiobjective", "mixed", "discrete", "binary", "permutation", "discrete-multi"])
+    if variant is not None and (k // 1000) % 2 == 0:
+        kind = "continuous"
     spec = universe.make_spec(rng, kind=kind)
     spec["seed"] = rng.choice(SEEDS) if rng.random() < 0.35 else rng.randint(0, 2 ** 32 - 1)
     return {"i": k, "opt": opt, "cfg": cfg, "cfg_class": klass, "spec": spec, "mode": "serial", "workers": None}
@@ -160,7 +162,7 @@ def check(prop, tier, seed):
     per_opt = 4 if tier == "quick" else 40
     n = 84 * per_opt
     cases = [make_case(seed, k) for k in range(n)]
-    for rep_ in range(1 if tier == "quick" else 6):
+    for rep_ in range(2 if tier == "quick" else 8):
         cases += [make_case(seed, 100000 + 1000 * rep_ + j, variant=v) for j, v in enumerate(universe.all_optional_variants())]
     n = len(cases)
     items_a = [{"k": k, "phase": "A", "case": c} for k, c in enumerate(cases)]
